@@ -130,20 +130,54 @@ def ret_fn(v, mode: str = 'x') -> List[types.PositiveInt]:
     return v
 
 
+@utype.parse(options=Options(collect_errors=True))
+def ret_fn_collect(v, mode: str = 'x') -> List[types.PositiveInt]:
+    return v
+
+
+@utype.parse(options=Options(collect_errors=True))
+def ret_fn_collect_int(v) -> types.PositiveInt:
+    return v
+
+
+@utype.parse(options=Options(collect_errors=True))
+async def ret_fn_async(v) -> types.PositiveInt:
+    return v
+
+
+def run_sync(aw):
+    it = aw.__await__()
+    try:
+        for _ in range(100):
+            next(it)
+    except StopIteration as e:
+        return e.value
+    raise RuntimeError('awaitable suspended')
+
+
 @ob('function', marks=['accept', 'reject'], budget=(90, 300), exhaustive=False,
     bounds='@parse def fn(a: PositiveInt, b: List[int], *rest: PositiveInt, k: Optional[str], **kw: PositiveInt) -> PositiveInt '
            'with solver-chosen arguments: the body only ever sees conforming arguments and the caller only a conforming result; '
-           'and def ret_fn(v) -> List[PositiveInt] returning its raw argument')
+           'and functions returning their raw argument under -> List[PositiveInt] / -> PositiveInt, with and without collect_errors, sync and async')
 def function(V):
     which = V.pick('which', ['args', 'return'])
     if which == 'return':
         x = value(V)
+        variant = V.pick('variant', ['plain', 'collect_errors', 'collect_errors-int', 'collect_errors-async'])
+        want = ('list', PI) if variant in ('plain', 'collect_errors') else PI
         try:
-            r = ret_fn(x)
+            if variant == 'plain':
+                r = ret_fn(x)
+            elif variant == 'collect_errors':
+                r = ret_fn_collect(x)
+            elif variant == 'collect_errors-int':
+                r = ret_fn_collect_int(x)
+            else:
+                r = run_sync(ret_fn_async(x))
         except Exception:  # noqa
             V.cover('reject')
             return
-        V.check(td.conforms(('list', PI), r), 'conform:return', lambda: 'ret_fn(%r) -> %r' % (x, r))
+        V.check(td.conforms(want, r), 'conform:return', lambda: 'ret_fn[%s](%r) -> %r' % (variant, x, r))
         V.cover('accept')
         return
     del SEEN[:]
@@ -173,3 +207,32 @@ def function(V):
     V.check(all(td.conforms(PI, x) for x in skw.values()), 'conform:var-kwargs', det)
     V.check(td.conforms(PI, r), 'conform:result', det)
     V.cover('accept')
+
+
+@ob('sym/float-bounds', marks=['accept', 'reject'], budget=(60, 200),
+    bounds='Rule[float] with one or two of gt/ge/lt/le (bounds picked from {0.0, 1.0, -1.5}); x = float picked from {0, 0.5, 1, +-1.5, -2, nan, +-inf} | "nan" | "inf" | "0.5" | b"nan" | solver int; flags solver-picked; an accepted result satisfies every bound',
+    out='IEEE rounding')
+def sym_float(V):
+    cons = {}
+    lo = V.pick('lo', [None, 'gt', 'ge'])
+    hi = V.pick('hi', [None, 'lt', 'le'])
+    if lo:
+        cons[lo] = V.pick('a', [0.0, -1.5])
+    if hi:
+        cons[hi] = V.pick('b', [1.0, 0.0])
+    if not cons:
+        return
+    d = ('rule', ('float',), cons)
+    try:
+        T = td.make(d)
+    except exc.ConfigError:
+        return
+    o = sym_flags(V)
+    k = V.pick('xk', ['float', 'text', 'int'])
+    x = V.pick('xf', [0.0, 0.5, 1.0, -1.5, 1.5, -2.0, float('nan'), float('inf'), float('-inf')]) if k == 'float' else V.pick('xs', ['nan', 'inf', '-inf', '0.5', b'nan', 'NaN']) if k == 'text' else V.int('xi', -3, 3)
+    r = parse(T, x, o)
+    if r[0] == 'ok':
+        V.check(td.conforms(d, r[1]), 'conform:sym-float', lambda: '%r options=%r input=%r -> %r' % (cons, o, x, r[1]))
+        V.cover('accept')
+    else:
+        V.cover('reject')
